@@ -30,6 +30,53 @@ def uses_quantifiers(smt2):
     return '(forall ' in smt2 or '(exists ' in smt2
 
 
+def decode_z3_string(v):
+    """Python str of a z3 string value (z3 escapes non-printables as \\u{..})."""
+    raw = v.as_string()
+    out = []
+    i = 0
+    while i < len(raw):
+        if raw.startswith('\\u{', i):
+            j = raw.index('}', i)
+            out.append(chr(int(raw[i + 3:j], 16)))
+            i = j + 1
+        else:
+            out.append(raw[i])
+            i += 1
+    return ''.join(out)
+
+
+def z3_to_py(v):
+    try:
+        if z3.is_string_value(v):
+            return decode_z3_string(v)
+        if z3.is_int_value(v):
+            return v.as_long()
+        if z3.is_true(v):
+            return True
+        if z3.is_false(v):
+            return False
+        if z3.is_app(v) and v.sort().kind() == z3.Z3_DATATYPE_SORT:
+            name = v.decl().name()
+            if name.startswith('none_'):
+                return None
+            if name.startswith('some_'):
+                return z3_to_py(v.arg(0))
+            if name.startswith('mk_Tup'):
+                return [z3_to_py(v.arg(i)) for i in range(v.num_args())]
+    except Exception:
+        pass
+    return {'z3': str(v)[:200]}
+
+
+def model_values(m):
+    out = {}
+    for d in m.decls():
+        if d.arity() == 0:
+            out[d.name()] = z3_to_py(m[d])
+    return out
+
+
 def run_z3py(smt2, timeout_ms, want_model=True):
     t0 = time.time()
     try:
@@ -39,13 +86,15 @@ def run_z3py(smt2, timeout_ms, want_model=True):
         s.from_string(smt2)
         r = s.check()
         model = None
+        values = None
         if r == z3.sat and want_model:
             try:
-                model = str(s.model())
+                model = str(s.model())[:6000]
+                values = model_values(s.model())
             except Exception:
                 model = None
         return {'status': str(r), 'backend': 'z3-%s(py)' % z3.get_version_string(),
-                'time': time.time() - t0, 'model': model,
+                'time': time.time() - t0, 'model': model, 'values': values,
                 'reason': s.reason_unknown() if r == z3.unknown else None}
     except Exception as ex:      # parse errors etc.
         return {'status': 'error', 'backend': 'z3py', 'time': time.time() - t0, 'model': None,
@@ -116,12 +165,13 @@ def solve_one(job):
             break
     if verdict is None:
         verdict = {'status': 'unknown', 'backend': None, 'time': sum(t['time'] for t in tried), 'model': None}
-    if verdict['status'] == 'sat' and verdict.get('model') is None:
+    if verdict['status'] == 'sat' and verdict.get('values') is None:
         # try to obtain a model from z3 for the replay
         r = run_z3py(smt2, timeout_ms)
         tried.append({k: r[k] for k in ('status', 'backend', 'time', 'reason')})
         if r['status'] == 'sat':
             verdict['model'] = r['model']
+            verdict['values'] = r.get('values')
         elif r['status'] == 'unsat':
             verdict = {'status': 'conflict', 'backend': 'cvc5 vs z3', 'time': verdict['time'], 'model': None}
     verdict['id'] = oid
